@@ -32,6 +32,39 @@ Theorem scrubbed_sni_hides_the_credentials_label :
 Proof. exact scrub_sni_label. Qed.
 Print Assumptions scrubbed_sni_hides_the_credentials_label.
 
+(* non-interference: two requests that differ at most in the VALUES of their Authorization,
+   Proxy-Authorization and Cookie headers have the same scrubbed form, so whatever is printed from the
+   scrubbed request (any rendering: Debug, Display, at any level) is the same text for every choice
+   of the secret values, and cannot contain them *)
+Theorem scrubbed_request_is_independent_of_the_secret_values :
+  forall r1 r2,
+    r_method r1 = r_method r2 -> r_uri r1 = r_uri r2 -> r_version r1 = r_version r2 ->
+    Forall2 same_but_secrets (r_headers r1) (r_headers r2) ->
+    scrub_request r1 = scrub_request r2
+    /\ forall (T : Type) (render : req -> T), render (scrub_request r1) = render (scrub_request r2).
+Proof.
+  intros r1 r2 Hm Hu Hv Hh.
+  assert (E : scrub_request r1 = scrub_request r2).
+  { unfold scrub_request. rewrite Hm, Hu, Hv. f_equal. apply scrub_headers_noninterference. exact Hh. }
+  split; [exact E|]. intros T render. rewrite E. reflexivity.
+Qed.
+Print Assumptions scrubbed_request_is_independent_of_the_secret_values.
+
+(* byte provenance: every byte of a header value of the scrubbed request comes from the placeholder
+   or from the value of a header of the request whose name is none of the three *)
+Theorem scrubbed_header_bytes_come_from_public_values :
+  forall r n v k, In (n, v) (r_headers (scrub_request r)) -> In k v ->
+    In k SCRUBBED \/ (secret_name n = false /\ In (n, v) (r_headers r)).
+Proof. intros r n v k. cbn [scrub_request r_headers]. apply scrub_headers_bytes_origin. Qed.
+Print Assumptions scrubbed_header_bytes_come_from_public_values.
+
+(* the SNI shown is the same for every credentials label (labels have no dot) *)
+Theorem scrubbed_sni_is_independent_of_the_credentials :
+  forall c1 c2 host, (forall c, In c c1 -> c <> 46) -> (forall c, In c c2 -> c <> 46) ->
+    scrub_sni (c1 ++ 46 :: host) = scrub_sni (c2 ++ 46 :: host).
+Proof. intros c1 c2 host H1 H2. rewrite !scrub_sni_label by assumption. reflexivity. Qed.
+Print Assumptions scrubbed_sni_is_independent_of_the_credentials.
+
 (* the Debug form of presented credentials does not depend on them *)
 Theorem credentials_debug_is_constant :
   forall a b, source_debug (SBasic a) = source_debug (SBasic b) /\ source_debug (SSni a) = source_debug (SSni b).
@@ -49,3 +82,9 @@ Example ex_scrub :
      r_headers := [(COOKIE, [1]); ([120], [2]); (COOKIE, [3]); (AUTHORIZATION, [4])] |})
   = [(COOKIE, SCRUBBED); ([120], [2]); (AUTHORIZATION, SCRUBBED)].
 Proof. vm_compute. reflexivity. Qed.
+
+(* the premises of the independence theorem are met by two requests with different secrets *)
+Example ex_independent :
+  Forall2 same_but_secrets [(COOKIE, [1; 2]); ([120], [2]); (PROXY_AUTHORIZATION, [9])]
+                           [(COOKIE, [7]); ([120], [2]); (PROXY_AUTHORIZATION, [8; 8; 8])].
+Proof. repeat constructor; cbn; intros H; try discriminate H; reflexivity. Qed.
